@@ -81,7 +81,7 @@ CLASS_SETS = {
     "QuantityVector": {"QuantityVector", "DimensionSymbol"},
 }
 KNOWN_CLASSES = set().union(*CLASS_SETS.values()) | {"Dimension", "AnyDimension", "Sequence", "list", "tuple", "int", "float", "complex", "str", "Number", "Iterable",
-                                                     "Vector", "dict", "bool", "Prefix", "Mul", "Add", "Pow", "Derivative", "Abs", "SymFunction", "MinMaxBase"}
+                                                     "Vector", "dict", "bool", "NoneType", "Prefix", "Mul", "Add", "Pow", "Derivative", "Abs", "SymFunction", "MinMaxBase"}
 
 
 def quantity(tag: str, dim: Dim, fac: str = "finite", cls: str = "Quantity") -> Obj:
@@ -114,6 +114,8 @@ class GateReader(PyReader):
             return CLASS_SETS.get(v.cls)
         if isinstance(v, Dim):
             return {"Dimension", "Basic", "Expr"} | ({"AnyDimension"} if v.any_dim else set())
+        if v is None:
+            return {"NoneType"}
         if isinstance(v, bool):
             return {"bool", "int"}
         if isinstance(v, int):
